@@ -19,7 +19,7 @@ type fnCtx struct {
 	lenCache     map[ssa.Value]Lin
 	phiLow       map[*ssa.Phi]*int64
 	success      []successFact
-	e *Engine
+	e            *Engine
 	// assumeParams: treat integer parameters of fn as non-negative (used while computing
 	// summaries); usedParams records which ones a proof relied on
 	assumeParams bool
